@@ -355,7 +355,7 @@ impl<T: Debug + Eq + PartialEq + Clone + Default> TaggedLine<T> {
         ensures r == no_str(self.v@), //@w @C14 @C03 #tl_is_empty
     {
         for elt in it: &self.v
-            invariant forall|j: int| 0 <= j < it.index@ ==> !(#[trigger] self.v@[j] is Str), //@w
+            invariant forall|j: int| 0 <= j < it.index@ ==> !(#[trigger] self.v@[j] is Str), //@w @C03 @C14 #is_empty_loop_invariant
         {
             if elt.has_content() {
                 return false;
@@ -544,12 +544,12 @@ impl<T: Debug + Eq + PartialEq + Clone + Default> TaggedLine<T> {
         let items = vec_drain_all(&mut tl.v);
         for ts in it: items
             invariant //@w
-                tag_ok::<T>(), it.seq() == items@, items@ == old(tl).v@, //@w
-                self.wf(), self.len == old(self).len + cwid(items@.take(it.index@)), //@w
-                old(self).len + cwid(items@) <= usize::MAX, //@w
-                flat(self.v@) =~= flat(old(self).v@) + flat(items@.take(it.index@)), //@w
-                all_some(old(self).v@) && all_some(items@) ==> all_some(self.v@), //@w
-                tl.v@.len() == 0, tl.len == old(tl).len, //@w
+                tag_ok::<T>(), it.seq() == items@, items@ == old(tl).v@, //@w @C02 @C03 @C04 @C09 @C12 @C14 #consume_loop_invariant
+                self.wf(), self.len == old(self).len + cwid(items@.take(it.index@)), //@w @C02 @C03 @C04 @C09 @C12 @C14 #consume_loop_invariant
+                old(self).len + cwid(items@) <= usize::MAX, //@w @C02 @C03 @C04 @C09 @C12 @C14 #consume_loop_invariant
+                flat(self.v@) =~= flat(old(self).v@) + flat(items@.take(it.index@)), //@w @C02 @C03 @C04 @C09 @C12 @C14 #consume_loop_invariant
+                all_some(old(self).v@) && all_some(items@) ==> all_some(self.v@), //@w @C02 @C03 @C04 @C09 @C12 @C14 #consume_loop_invariant
+                tl.v@.len() == 0, tl.len == old(tl).len, //@w @C02 @C03 @C04 @C09 @C12 @C14 #consume_loop_invariant
         {
             proof { //@w
                 let k = it.index@; //@w
@@ -1068,15 +1068,15 @@ impl<T: Clone + Eq + Debug + Default> WrappedBlock<T> {
                             split_idx == 0, !ovf, (k as int) < tail@.len(), //@w
                             lineleft == ll0 - sw(tail@.take(k as int)), wpos == wpos0 + sw(tail@.take(k as int)), //@w
                         invariant //@w
-                            tail@ == chars.skip(cpos), ci@.len() == tail@.len(), //@w
-                            forall|j: int| 0 <= j < tail@.len() ==> (#[trigger] ci@[j]).0 == off(tail@, j) && ci@[j].1 == tail@[j], //@w
-                            forall|j: int| 0 <= j < tail@.len() ==> cw(#[trigger] tail@[j]).is_some(), //@w
-                            0 <= cpos <= chars.len(), ll0 == self.width - self.line.len, sw(tail@) == w - wpos0, w - wpos0 > ll0, //@w
-                            self.inv_nw(), wpos0 <= w, w <= 0x4000_0000_0000_0000, //@w
-                        ensures //@w
-                            0 <= kb <= tail@.len(), split_idx == off(tail@, kb), wpos == wpos0 + sw(tail@.take(kb)), //@w
-                            !ovf ==> sw(tail@.take(kb)) <= ll0 && (kb >= 1 || self.line.len > 0), //@w
-                            ovf ==> kb == 1 && self.allow_overflow && self.line.len == 0 && sw(tail@.take(1)) <= 2, //@w
+                            tail@ == chars.skip(cpos), ci@.len() == tail@.len(), //@w @C02 @C03 @C04 @C11 @C12 @C14 @C15 #flush_word_hard_wrap_loop_invariant
+                            forall|j: int| 0 <= j < tail@.len() ==> (#[trigger] ci@[j]).0 == off(tail@, j) && ci@[j].1 == tail@[j], //@w @C02 @C03 @C04 @C11 @C12 @C14 @C15 #flush_word_hard_wrap_loop_invariant
+                            forall|j: int| 0 <= j < tail@.len() ==> cw(#[trigger] tail@[j]).is_some(), //@w @C02 @C03 @C04 @C11 @C12 @C14 @C15 #flush_word_hard_wrap_loop_invariant
+                            0 <= cpos <= chars.len(), ll0 == self.width - self.line.len, sw(tail@) == w - wpos0, w - wpos0 > ll0, //@w @C02 @C03 @C04 @C11 @C12 @C14 @C15 #flush_word_hard_wrap_loop_invariant
+                            self.inv_nw(), wpos0 <= w, w <= 0x4000_0000_0000_0000, //@w @C02 @C03 @C04 @C11 @C12 @C14 @C15 #flush_word_hard_wrap_loop_invariant
+                        ensures //@w @C02 @C03 @C04 @C11 @C12 @C14 @C15 #flush_word_hard_wrap_loop_invariant
+                            0 <= kb <= tail@.len(), split_idx == off(tail@, kb), wpos == wpos0 + sw(tail@.take(kb)), //@w @C02 @C03 @C04 @C11 @C12 @C14 @C15 #flush_word_hard_wrap_loop_invariant
+                            !ovf ==> sw(tail@.take(kb)) <= ll0 && (kb >= 1 || self.line.len > 0), //@w @C02 @C03 @C04 @C11 @C12 @C14 @C15 #flush_word_hard_wrap_loop_invariant
+                            ovf ==> kb == 1 && self.allow_overflow && self.line.len == 0 && sw(tail@.take(1)) <= 2, //@w @C02 @C03 @C04 @C11 @C12 @C14 @C15 #flush_word_hard_wrap_loop_invariant
                     {
                         let (idx, c) = ci[k]; //@w
                         let c_w = UnicodeWidthChar::width(c).unwrap();
